@@ -152,6 +152,25 @@ func Normalize(p *ir.Program, ref map[string]bool, reload func(ov map[string][]b
 		for _, k := range keys {
 			nf := newFns[k]
 			if why := inlinable(cur, nf, newFns); why != "" {
+				if strings.HasPrefix(why, "used as a value") && !skip[k+"#eta"] {
+					// a method / function value of the new helper: η-expand it into a literal that calls the helper
+					fname, ns, err := etaExpand(cur, nf, content, iter)
+					if err == nil && ns != nil {
+						ov := cloneOv(overlay)
+						ov[fname] = ns
+						if np, aerr := apply(cur, ov); aerr == nil {
+							overlay, cur, progressed = ov, np, true
+							delete(res.Left, k)
+							break
+						} else {
+							err = aerr
+						}
+					}
+					skip[k+"#eta"] = true
+					if err != nil {
+						why += " (" + err.Error() + ")"
+					}
+				}
 				res.Left[k] = why
 				continue
 			}
@@ -275,7 +294,7 @@ func findNew(p *ir.Program, ref map[string]bool) map[string]*newFn {
 					continue
 				}
 				k := DeclKey(pk.PkgPath, fd)
-				if ref[k] || fd.Name.Name == "init" || fd.Name.Name == "main" {
+				if ref[k] || fd.Name.Name == "init" || fd.Name.Name == "main" || p.IsRehomed(k) {
 					continue
 				}
 				obj, _ := pk.TypesInfo.Defs[fd.Name].(*types.Func)
